@@ -163,12 +163,33 @@ static int mode_merge(const vfh::Args &A) {
     o << "{\"t\":\"case\",\"id\":\"" << vfh::jesc(id) << "\",";
     Property res, res_fresh, res_again;
     std::string err, err_fresh, err_again;
+    // additional choices belong to the handler they were given to: a handler WITHOUT them resolves the same input
+    // identically before any handler of this case has them and while two other handlers hold them
+    Property res_plain0, res_plain1;
+    std::string err_plain0, err_plain1;
+    bool ok_plain0 = false, ok_plain1 = false;
+    if (kind == "A") {
+      OptionsHandler plain(defaults);
+      ok_plain0 = exec(plain, res_plain0, err_plain0);
+    }
     if (kind == "A") handler.setAdditionalChoices(extra);
     bool ok = exec(handler, res, err);
     OptionsHandler fresh(defaults);
     if (kind == "A") fresh.setAdditionalChoices(extra);
     bool ok_fresh = exec(fresh, res_fresh, err_fresh);
     bool ok_again = exec(handler, res_again, err_again);
+    if (kind == "A") {
+      OptionsHandler plain(defaults);  // created and used while `handler` and `fresh` hold the extra choices
+      ok_plain1 = exec(plain, res_plain1, err_plain1);
+      R.eval("additional_choices_other_handler");
+      std::string a = ok_plain0 ? dumps(res_plain0, true) : "ERR " + err_plain0, b = ok_plain1 ? dumps(res_plain1, true) : "ERR " + err_plain1;
+      if (a != b)
+        R.violation("reuse/additional-choices-leak-to-other-handler",
+                    "a handler that was never given additional choices resolves an input differently while other handlers hold additional choices",
+                    J().s("id", id).s("calc", calc).s("user_file", file).s("manifest", A.str("manifest")).s("defaults", defaults)
+                        .s("before_any_handler_had_them", a.substr(0, 2000)).s("while_two_other_handlers_hold_them", b.substr(0, 2000)));
+      R.counter(ok_plain1 ? "additional_choice_value_accepted_by_plain_handler" : "additional_choice_value_rejected_by_plain_handler");
+    }
     if (kind == "A") handler.setAdditionalChoices({});  // later calls must behave like a fresh handler again
     R.eval(kind == "C" ? "driver_calcopts" : kind == "A" ? "driver_process_additional_choices" : "driver_process");
     R.eval("reuse_handler_vs_fresh");
@@ -200,6 +221,7 @@ static int mode_merge(const vfh::Args &A) {
       R.counter("driver_errors");
       o << "\"ok\":false,\"err\":\"" << vfh::jesc(err) << "\"";
     }
+    if (kind == "A") o << ",\"plain_ok\":" << (ok_plain1 ? "true" : "false");
     o << "}";
     std::cout << o.str() << "\n";
   }
